@@ -80,9 +80,20 @@ func (f *frame) call(x *ssa.Call, cc *ssa.CallCommon, pc *Term, st State) {
 			continue
 		}
 		site.Used = true
-		env := f.newSpecEnv(st, pre)
+		// old(..) is the function's entry state; argN are the call's arguments
+		// (receiver first); result/resultN its results
+		env := f.newSpecEnv(st, f.entry)
 		env.at = x.Block()
 		env.atInstr = x
+		ai := 0
+		if cc.IsInvoke() {
+			env.vars["arg0"] = f.get(cc.Value)
+			ai = 1
+		}
+		for _, a := range cc.Args {
+			env.vars[fmt.Sprintf("arg%d", ai)] = f.get(a)
+			ai++
+		}
 		for i, n := range f.spec.Params {
 			if i < len(f.params) {
 				env.vars[n] = f.params[i]
